@@ -285,25 +285,25 @@ namespace detail
 	template<typename genIUType>
 	GLM_FUNC_QUALIFIER genIUType bitfieldFillOne(genIUType Value, int FirstBit, int BitCount)
 	{
-		return Value | static_cast<genIUType>(mask(BitCount) << FirstBit);
+		return Value | static_cast<genIUType>(mask(static_cast<genIUType>(BitCount)) << FirstBit);
 	}
 
 	template<length_t L, typename T, qualifier Q>
 	GLM_FUNC_QUALIFIER vec<L, T, Q> bitfieldFillOne(vec<L, T, Q> const& Value, int FirstBit, int BitCount)
 	{
-		return Value | static_cast<T>(mask(BitCount) << FirstBit);
+		return Value | static_cast<T>(mask(static_cast<T>(BitCount)) << FirstBit);
 	}
 
 	template<typename genIUType>
 	GLM_FUNC_QUALIFIER genIUType bitfieldFillZero(genIUType Value, int FirstBit, int BitCount)
 	{
-		return Value & static_cast<genIUType>(~(mask(BitCount) << FirstBit));
+		return Value & static_cast<genIUType>(~(mask(static_cast<genIUType>(BitCount)) << FirstBit));
 	}
 
 	template<length_t L, typename T, qualifier Q>
 	GLM_FUNC_QUALIFIER vec<L, T, Q> bitfieldFillZero(vec<L, T, Q> const& Value, int FirstBit, int BitCount)
 	{
-		return Value & static_cast<T>(~(mask(BitCount) << FirstBit));
+		return Value & static_cast<T>(~(mask(static_cast<T>(BitCount)) << FirstBit));
 	}
 
 	GLM_FUNC_QUALIFIER int16 bitfieldInterleave(int8 x, int8 y)
